@@ -9,12 +9,16 @@ Case kinds
   o2a        {"kind","col":{name,type,elem,p,s,nullable}}   FlatColumn -> arrow_field -> FlatColumn.from_arrow
   a2o        {"kind","field":{name,nullable,"t":typespec},"mab":bool}   FlatColumn.from_arrow(field, mab)
   schema     {"kind","cols":[col...],"ids":bool}   convert_orso_schema_to_arrow_schema / convert_arrow_schema_to_orso_schema
+  frameops   {"kind","cols":[colspec],"tables":[[chunk,...],...],"source":arrow-list|arrow-gen|arrow-single|rows-list|rows-gen,
+              "ops":[["arrow",size|None]|["rowcount"]|["materialize"],...]}   ONE DataFrame (over Arrow tables, or over Python rows given
+             as a list / a generator), the calls made on it one after the other; every exported table is read column by column
 
 Canonical cells (JSON): None | ["b",bool] | ["i",int] | ["f",bits] | ["s",str] | ["x",hex] | ["t",ns since epoch]
   | ["d",days since epoch] | ["n",unscaled,exp] (decimal, normalised) | ["l",[cells]] | ["?",type name]
 """
 import ast
 import datetime
+import re
 import decimal
 import itertools
 import os
@@ -35,7 +39,12 @@ LEVEL_TEXT = ("Machine-checked Coq theorems: for every list of tables (empty tab
               "from the running code on every run; an Arrow field's name and nullability carry over. The models are tied to converters.py / "
               "schema.py / tools.py by running the real code on all splittings of <= 6 rows into <= 4 tables x all sizes, on random typed tables with "
               "nulls and integers beyond 2^53, and on every type / every (p,s) / every constructible Arrow type, the comparison being evaluated by "
-              "the Coq VM; a literal property oracle on the implementation supplies replayable failing inputs.")
+              "the Coq VM; a literal property oracle on the implementation supplies replayable failing inputs. Round 2: for ANY sequence of "
+              "arrow(size)/rowcount/materialize() calls on ONE frame (lazily or list backed) every export is the transposition of the first `size` of "
+              "ALL the frame's rows, whatever was called before (state machine lazy-iterator/list proved); the FlatColumn constructor's decimal block "
+              "is modelled (closed form proved equal to probes of the live constructor on every 0<=s<=p<=38, by attribute and by type name) and "
+              "FlatColumn.from_arrow goes through it, so DECIMAL(p,s) AS ASKED FOR round-trips; tied to the code by all call sequences of length "
+              "<= 2 (3 on a three-table stream) x 5 ways of backing the frame, and by comparing every constructed column with the request.")
 LEVEL_NOTE = ("PARTIAL by construction: cell fidelity through pyarrow/pandas (process_table: to_batches, to_pandas, replace, itertuples; "
               "Table.from_arrays) is NOT proved: in the theorems process_table / Table.from_arrays are Section oracles with the explicit premise "
               "that they return the table's rows; that premise is decided by the differential run only (cells compared in Coq against the values the "
@@ -43,21 +52,30 @@ LEVEL_NOTE = ("PARTIAL by construction: cell fidelity through pyarrow/pandas (pr
               "F-C11-2 integer column containing a null comes back as floats (inside the compiled process_table); F-C11-5 a numeric list cell "
               "containing a null element comes back as floats/NaN (same call). Trusted: Coq kernel + vm_compute, the hand-written models of "
               "_RowsIterator/from_arrow/to_arrow/FlatColumn.from_arrow/arrow_field, gen() (behavioural probes of the live code + the AST of the "
-              "decimal128(...) call), pyarrow's decimal128 range check (1..38) as modelled. No axioms (Print Assumptions: closed).")
+              "decimal128(...) call), pyarrow's decimal128 range check (1..38) as modelled. No axioms (Print Assumptions: closed). "
+              "Frame state machine: the fetchone/fetchmany/fetchall cursor (which shares the iterator of a lazy frame) is NOT modelled; exported "
+              "tables are read with pyarrow's to_pylist (trusted). frameops cases avoid null elements in numeric lists (F-C11-5 makes such a frame "
+              "unexportable).")
 DESIGN_REF = "DESIGN.md section 8, C11"
 COQ_IMPORTS = "From Orso Require Import Gen.C11_ArrowMap Model.C11."
 COQ_CHECKS = {"stream": "c11_check_stream", "batch": "c11_check_batch", "roundtrip": "c11_check_roundtrip",
-              "o2a": "c11_check_o2a", "a2o": "c11_check_a2o", "schema": "c11_check_schema"}
+              "o2a": "c11_check_o2a", "a2o": "c11_check_a2o", "schema": "c11_check_schema", "frameops": "c11_check_frameops"}
 COQ_SHOW = {"stream": "c11_show_stream", "roundtrip": "c11_show_roundtrip", "o2a": "c11_show_o2a", "a2o": "c11_show_a2o",
-            "schema": "c11_show_schema"}
+            "schema": "c11_show_schema", "frameops": "c11_show_frameops"}
 RULE = ("stream: typed Arrow tables (int8..uint64/float/string/bool/binary/timestamp/date/decimal/list columns, nulls anywhere, integers beyond 2^53, "
         "multi-chunk tables) split into a sequence of tables, read through from_arrow(tables, size) with next() called N+2 times; exhaustive over all "
         "splittings of <= 6 rows into <= 4 tables (zero-row tables anywhere) x sizes 0..N+1 and none, then random; batch: process_table with every batch "
         "size 1..N+1; roundtrip: DataFrame -> arrow(size) -> DataFrame; o2a/a2o/schema: every Orso type x element type, the whole (p,s) grid, every "
-        "constructible Arrow type. A case is non-trivial when at least one row / one column was converted; distinct by canonical JSON")
+        "constructible Arrow type; frameops: ONE frame (over Arrow tables given as list/generator/single table, or over Python rows given as list/"
+        "generator) and a sequence of arrow(size)/rowcount/materialize() calls on it, every exported table read back column by column: exhaustive "
+        "over sequences of length 1..2 (3 on a three-table stream with a zero-row table) x 5 backings x 3 row sets, then random (up to 5 calls, up to "
+        "4 tables, 8 rows). A case is non-trivial when at least one row / one column was converted; distinct by canonical JSON")
 TRUSTED = [
     "C11 model (coq/Model/C11.v): _RowsIterator as (pending tables, current rows, rows_processed, batch size, cap); from_arrow's `if size` / min(size, BATCH_SIZE); "
     "to_arrow as head(size) + zip(*rows) with the rowcount == 0 branch; FlatColumn.arrow_field / from_arrow / arrow_type_map as lookups in coq/Gen/C11_ArrowMap.v",
+    "C11 frame model (Model/C11.v Section Frame): DataFrame._rows as one-shot iterator | list; materialize / rowcount / slice->head / to_arrow as in dataframe.py "
+    "184-189, 245-253, 418-421 and converters.py 72-86; the cursor is not modelled. FlatColumn.__init__ decimal block as ctor_decimal (closed form; 0.75*p as "
+    "truncating 3p/4), validated against ctor_dec_probes on every run",
     "gen(): tables obtained by probing the live FlatColumn.arrow_field / arrow_type_map / PYTHON_TO_ORSO_MAP / from_name, the decimal128(...) arguments and BATCH_SIZE read from the AST (fail closed)",
     "modelled, not verified: pyarrow (Table.from_arrays, to_batches, decimal128 range check), pandas (to_pandas, replace, itertuples): Section oracles / hand model validated by the differential run only",
 ]
@@ -351,6 +369,44 @@ def gen(repo):
                 raise ValueError("from_name('ARRAY<%s>') names element type %r" % (n, r[4]))
             accepted.append(tid[m])
 
+    # ---- the constructor's "validate decimal properties" block, probed: (precision, scale) asked for -> the object's
+    def ctor_probe(**kw):
+        try:
+            c = S.FlatColumn(name="c", **kw)
+        except Exception:
+            return None
+        for v in (c.precision, c.scale):
+            if v is not None and type(v) is not int:
+                raise ValueError("FlatColumn(%r) has a non-integer precision / scale: %r" % (kw, (c.precision, c.scale)))
+        if c.type != OT.DECIMAL:
+            raise ValueError("FlatColumn(%r) is not a DECIMAL column" % (kw,))
+        return (c.precision, c.scale)
+
+    def ctor_kw(p, s):
+        kw = {"type": OT.DECIMAL}
+        if p is not None:
+            kw["precision"] = p
+        if s is not None:
+            kw["scale"] = s
+        return kw
+
+    with warnings.catch_warnings():
+        warnings.simplefilter("ignore")
+        ctx = ctor_probe(type=OT.DECIMAL)
+        if ctx is None or type(ctx[0]) is not int:
+            raise ValueError("FlatColumn(type=DECIMAL) has no integer default precision: %r" % (ctx,))
+        ctor_reqs = [(None, s) for s in (None, 0, 3, 10, 28, 40)]
+        for pp in range(0, 41):
+            ctor_reqs += [(pp, s) for s in [None] + list(range(0, pp + 1)) + [pp + 1, -1]]
+        ctor_probes = [((pp, s), ctor_probe(**ctor_kw(pp, s))) for pp, s in ctor_reqs]
+        byname_probes = [((pp, s), ctor_probe(type="DECIMAL(%d,%d)" % (pp, s))) for pp in range(1, 39) for s in range(0, pp + 1)]
+
+    def optz(v):
+        return L.opt(None if v is None else L.Z(v))
+
+    def probe_out(r):
+        return "None" if r is None else "(Some (%s, %s))" % (optz(r[0]), optz(r[1]))
+
     def rule(a):
         attr, (r, d) = a
         return "(%s, %s)" % ("SelPrecision" if attr == "precision" else "SelScale",
@@ -411,6 +467,16 @@ def gen(repo):
     o.append("")
     o.append("(* element types OrsoTypes.from_name accepts in ARRAY<...> *)")
     o.append("Definition accepted_elems : list N := %s." % L.lst(L.N(t) for t in accepted))
+    o.append("")
+    o.append("(* FlatColumn(name=, type=DECIMAL).precision: the default the constructor takes from decimal.getcontext().prec *)")
+    o.append("Definition ctor_ctx_prec : Z := %s." % L.Z(ctx[0]))
+    o.append("(* FlatColumn(name=, type=DECIMAL, precision=p, scale=s) probed: ((p, s) asked for (None = not given), Some (precision, scale)")
+    o.append("   of the object built, None = the constructor raised).  Covers every 0 <= s <= p <= 38 and a margin. *)")
+    o.append("Definition ctor_dec_probes : list ((option Z * option Z) * option (option Z * option Z)) :=\n  [" + ";\n   ".join(
+        "((%s, %s), %s)" % (optz(pp), optz(s), probe_out(r)) for (pp, s), r in ctor_probes) + "].")
+    o.append("(* FlatColumn(name=, type=\"DECIMAL(p,s)\") probed the same way, for every 0 <= s <= p <= 38, p >= 1 *)")
+    o.append("Definition ctor_dec_byname_probes : list ((Z * Z) * option (option Z * option Z)) :=\n  [" + ";\n   ".join(
+        "((%s, %s), %s)" % (L.Z(pp), L.Z(s), probe_out(r)) for (pp, s), r in byname_probes) + "].")
     o.append("")
     o.append("(* converters.from_arrow: BATCH_SIZE literal (AST) *)")
     o.append("Definition c11_batch_size : N := %s." % L.N(_batch_size(repo)))
@@ -782,7 +848,56 @@ def _observe_schema(case):
     return obs
 
 
+FRAME_SOURCES = ("arrow-list", "arrow-gen", "arrow-single", "rows-list", "rows-gen")
+
+
+def _frame_rows(case):
+    return [r for t in case["tables"] for r in _table_rows(t)]
+
+
+def _make_frame(case):
+    """The frame a frameops case is about: over Arrow tables (lazily backed) or over Python rows (list / generator)."""
+    from orso.dataframe import DataFrame
+
+    src = case["source"]
+    names = [c["name"] for c in case["cols"]]
+    if src.startswith("arrow"):
+        tables = [_build_table(case["cols"], t) for t in case["tables"]]
+        arg = {"arrow-list": lambda: list(tables), "arrow-gen": lambda: (t for t in tables), "arrow-single": lambda: tables[0]}[src]()
+        return DataFrame.from_arrow(arg)
+    rows = [tuple(pyval(c) for c in r) for r in _frame_rows(case)]
+    return DataFrame(rows=(r for r in rows) if src == "rows-gen" else list(rows), schema=names)
+
+
+def _observe_frameops(case):
+    try:
+        df = _make_frame(case)
+    except Exception as e:
+        return {"raise": _exc(e)}
+    outs = []
+    for op in case["ops"]:
+        try:
+            if op[0] == "arrow":
+                t = df.arrow() if op[1] is None else df.arrow(op[1])
+                cols = [[canon(x) for x in t.column(j).to_pylist()] for j in range(t.num_columns)]
+                outs.append({"names": list(t.column_names), "nrows": int(t.num_rows),
+                             "rows": [list(r) for r in zip(*cols)] if cols else []})
+            elif op[0] == "rowcount":
+                outs.append({"count": int(df.rowcount)})
+            elif op[0] == "materialize":
+                df.materialize()
+                outs.append({})
+            else:
+                raise KeyError(op[0])
+        except Exception as e:
+            outs.append({"raise": _exc(e)})
+            break
+    return {"outs": outs}
+
+
 def observe(case):
+    if case["kind"] == "frameops":
+        return _observe_frameops(case)
     return {"stream": _observe_stream, "batch": _observe_batch, "roundtrip": _observe_roundtrip, "o2a": _observe_o2a,
             "a2o": _observe_a2o, "schema": _observe_schema}[case["kind"]](case)
 
@@ -878,8 +993,9 @@ def _oracle_stream(case, obs, tol):
         if len(obs["schema"]) != len(case["cols"]):
             return "schema has %d columns, the first table %d" % (len(obs["schema"]), len(case["cols"]))
         for c, f in zip(obs["schema"], obs["fields"]):
-            if c["name"] != f["name"] or c["nullable"] != f["nullable"]:
-                return "column %r nullable=%r built from Arrow field %r nullable=%r" % (c["name"], c["nullable"], f["name"], f["nullable"])
+            why = _field_col_why(f, c)
+            if why:
+                return "schema of the frame: " + why
     return None
 
 
@@ -908,6 +1024,10 @@ def _oracle_roundtrip(case, obs, tol):
         return why
     if obs["names"] != case["names"] or obs["arrow_names"] != case["names"]:
         return "column names %r became %r (Arrow) and %r (back)" % (case["names"], obs["arrow_names"], obs["names"])
+    for c, f in zip(obs["schema"], obs["fields"]):
+        why = _field_col_why(f, c)
+        if why:
+            return "schema of the frame read back: " + why
     return None
 
 
@@ -950,6 +1070,77 @@ def _col_round_trip_why(c, back, name):
     return None
 
 
+_RE_DEC = re.compile(r"DECIMAL\((\d+),(\d+)\)")
+_RE_ARR = re.compile(r"ARRAY<(\w+)>")
+
+
+def _requested(spec):
+    """What the caller ASKED the FlatColumn constructor for (case["col"] / case["cols"][i]), as observed-column keys; None when the
+    request does not name every attribute by itself (bare "ARRAY": from_name supplies an element type)."""
+    r = {"name": spec["name"], "nullable": spec.get("nullable", True), "type": spec["type"], "elem": spec.get("elem"),
+         "p": spec.get("p"), "s": spec.get("s")}
+    b = spec.get("byname")
+    if b:
+        m, a = _RE_DEC.fullmatch(b), _RE_ARR.fullmatch(b)
+        if m:
+            r.update(type="DECIMAL", p=int(m.group(1)), s=int(m.group(2)))
+        elif a:
+            r.update(type="ARRAY", elem=a.group(1))
+        elif b == "ARRAY":
+            return None
+        else:
+            r["type"] = b
+    return r
+
+
+def _asked_why(spec, c, back):
+    """The typing clause read on the type the caller asked for: DECIMAL(p,s) with 0<=s<=p<=38 asked for must be the column built
+    and the column that comes back from Arrow; likewise the type / element type of any non-excluded request."""
+    r = _requested(spec)
+    if r is None or r["type"] in EXCLUDED or r["type"] not in _members():
+        return None
+    t = r["type"]
+    keys = ["type"]
+    if t == "DECIMAL":
+        p, sc = r["p"], r["s"]
+        if not (isinstance(p, int) and isinstance(sc, int) and 1 <= p <= 38 and 0 <= sc <= p):
+            return None
+        keys += ["p", "s"]
+    elif t == "ARRAY":
+        if r["elem"] is None or r["elem"] in EXCLUDED or r["elem"] not in _accepted_elems() or r["p"] is not None or r["s"] is not None:
+            return None
+        keys += ["elem"]
+    elif r["p"] is not None or r["s"] is not None or r["elem"] is not None:
+        return None
+    for k in keys + ["name", "nullable"]:
+        if c[k] != r[k]:
+            return "FlatColumn asked for %s was built as %s (%s differs)" % (_tdesc(r), _tdesc(c), k)
+    if isinstance(back, dict) and "raise" in back:
+        return None  # reported by _col_round_trip_why on the constructed column
+    for k in keys:
+        if back[k] != r[k]:
+            return "%s as asked for came back from Arrow as %s (%s differs)" % (_tdesc(r), _tdesc(back), k)
+    return None
+
+
+def _dec128_id():
+    import pyarrow.lib as lib
+
+    return int(lib.Type_DECIMAL128)
+
+
+def _field_col_why(f, c):
+    """An Arrow field and the column built from it: name and nullability carry over; a decimal128(p, s) field (the Arrow type
+    DECIMAL(p, s) maps to) must map back to DECIMAL with the same p and s."""
+    if c["name"] != f["name"] or c["nullable"] != f["nullable"]:
+        return "Arrow field %r nullable=%r became column %r nullable=%r" % (f["name"], f["nullable"], c["name"], c["nullable"])
+    t = f["t"]
+    if t[0] == "dec" and t[1] == _dec128_id() and 1 <= t[2] <= 38 and 0 <= t[3] <= t[2]:
+        if (c["type"], c["p"], c["s"]) != ("DECIMAL", t[2], t[3]):
+            return "Arrow field %r of type decimal128(%d, %d) became a column %s" % (f["name"], t[2], t[3], _tdesc(c))
+    return None
+
+
 def _tdesc(c):
     return "%s(elem=%s, precision=%s, scale=%s)" % (c["type"], c["elem"], c["p"], c["s"])
 
@@ -959,18 +1150,15 @@ def _oracle_o2a(case, obs, tol):
         return None
     f = obs["field"]
     if "raise" in f:
-        return _col_round_trip_why(obs["col"], f, obs["col"]["name"])
-    return _col_round_trip_why(obs["col"], obs["back"], obs["col"]["name"])
+        return _col_round_trip_why(obs["col"], f, obs["col"]["name"]) or _asked_why(case["col"], obs["col"], f)
+    return _col_round_trip_why(obs["col"], obs["back"], obs["col"]["name"]) or _asked_why(case["col"], obs["col"], obs["back"])
 
 
 def _oracle_a2o(case, obs, tol):
     c = obs["col"]
     if "raise" in c:
         return None
-    f = case["field"]
-    if c["name"] != f["name"] or c["nullable"] != f["nullable"]:
-        return "Arrow field %r nullable=%r became column %r nullable=%r" % (f["name"], f["nullable"], c["name"], c["nullable"])
-    return None
+    return _field_col_why(obs["field"], c)
 
 
 def _oracle_schema(case, obs, tol):
@@ -979,33 +1167,64 @@ def _oracle_schema(case, obs, tol):
     cols = obs["cols"]
     fs = obs["fields"]
     if isinstance(fs, dict):
-        for c in cols:
-            why = _col_round_trip_why(c, fs, c["name"])
+        for spec, c in zip(case["cols"], cols):
+            why = _col_round_trip_why(c, fs, c["name"]) or _asked_why(spec, c, fs)
             if why:
                 return why
         return None
     back = obs["back"]
     if isinstance(back, dict):
-        for c in cols:
-            why = _col_round_trip_why(c, back, c["name"])
+        for spec, c in zip(case["cols"], cols):
+            why = _col_round_trip_why(c, back, c["name"]) or _asked_why(spec, c, back)
             if why:
                 return why
         return None
     if len(fs) != len(cols) or len(back) != len(cols):
         return "schema of %d columns became %d Arrow fields and %d columns" % (len(cols), len(fs), len(back))
-    for c, f, b in zip(cols, fs, back):
+    for spec, c, f, b in zip(case["cols"], cols, fs, back):
         name = c["identity"] if case["ids"] else c["name"]
         if f["name"] != name:
             return "Arrow field for column %r is named %r, expected %r" % (c["name"], f["name"], name)
-        if b["name"] != f["name"] or b["nullable"] != f["nullable"]:
-            return "Arrow field %r nullable=%r became column %r nullable=%r" % (f["name"], f["nullable"], b["name"], b["nullable"])
-        why = _col_round_trip_why(c, b, name)
+        why = _field_col_why(f, b) or _col_round_trip_why(c, b, name) or _asked_why(spec, c, b)
         if why:
             return why
     return None
 
 
-_ORACLES = {"stream": _oracle_stream, "batch": _oracle_batch, "roundtrip": _oracle_roundtrip, "o2a": _oracle_o2a,
+def _oracle_frameops(case, obs, tol):
+    """Every export of the SAME frame returns the frame's rows (cut to the size) and names, every time; rowcount is their number."""
+    if "raise" in obs:
+        return "building the frame raised " + obs["raise"]
+    rows = _frame_rows(case)
+    names = [c["name"] for c in case["cols"]]
+    flags = _col_flags(rows)
+    outs = obs["outs"]
+    for k, op in enumerate(case["ops"]):
+        what = "call %d (%s%s) on the same frame" % (k + 1, op[0], "" if op[0] != "arrow" else "(%s)" % ("" if op[1] is None else op[1]))
+        if k >= len(outs):
+            return what + ": not reached"
+        o = outs[k]
+        if "raise" in o:
+            return "%s raised %s" % (what, o["raise"])
+        if op[0] == "rowcount":
+            if o["count"] != len(rows):
+                return "%s: rowcount is %d, the frame holds %d rows" % (what, o["count"], len(rows))
+        elif op[0] == "arrow":
+            size = op[1]
+            if size is not None and size < 0:
+                continue  # outside the quantifier: model-compared only
+            expected = rows if size is None else rows[:size]
+            if o["names"] != names:
+                return "%s: column names %r became %r" % (what, names, o["names"])
+            if o["nrows"] != len(expected) or len(o["rows"]) != len(expected):
+                return "%s: the Arrow table has %d rows, expected %d" % (what, o["nrows"], len(expected))
+            why = _rows_why(expected, o["rows"] + [None], flags, tol, what)
+            if why:
+                return why
+    return None
+
+
+_ORACLES = {"frameops": _oracle_frameops, "stream": _oracle_stream, "batch": _oracle_batch, "roundtrip": _oracle_roundtrip, "o2a": _oracle_o2a,
             "a2o": _oracle_a2o, "schema": _oracle_schema}
 
 
@@ -1015,7 +1234,7 @@ def oracle(case, obs, tol=()):
 
 def known(case, obs):
     """F-C11-2 / F-C11-5: exactly the cells the known defect of process_table changes, everything else still compared."""
-    if case["kind"] not in ("stream", "batch", "roundtrip"):
+    if case["kind"] not in ("stream", "batch", "roundtrip", "frameops"):
         return None
     if oracle(case, obs) is None:
         return None
@@ -1106,6 +1325,29 @@ def _coq_result(x, f):
     return None if t is None else "(Ok %s)" % t
 
 
+def _coq_req(spec, tid):
+    """The requested attributes as `option column` (None: the request is not expressible / not self-contained)."""
+    r = _requested(spec)
+    if r is None or r["type"] not in tid or (r["elem"] is not None and r["elem"] not in tid):
+        return "None"
+    t = _coq_col(r, tid)
+    return "None" if t is None else "(Some %s)" % t
+
+
+def _coq_op(op):
+    if op[0] == "arrow":
+        return "(OpArrow %s)" % L.opt(None if op[1] is None else L.Z(op[1]))
+    return {"rowcount": "OpRowcount", "materialize": "OpMaterialize"}[op[0]]
+
+
+def _coq_fobs(o):
+    if "count" in o:
+        return "(ObsCount %s)" % L.N(o["count"])
+    if "names" in o:
+        return "(ObsTable %s %s %s)" % (L.lst(L.text(n) for n in o["names"]), L.N(o["nrows"]), _coq_rows(o["rows"]))
+    return "ObsNone"
+
+
 def _coq_cols(cols, tid):
     ts = [_coq_col(c, tid) for c in cols]
     return None if any(t is None for t in ts) else L.lst(ts)
@@ -1149,7 +1391,7 @@ def to_coq(case, obs):
         back = _coq_result(obs.get("back", {"raise": "ValueError"}), lambda c: _coq_col(c, tid))
         if col is None or f is None or back is None:
             return None
-        return ("o2a", "((%s, %s, %s) : o2a_case)" % (col, f, back))
+        return ("o2a", "((%s, %s, %s, %s) : o2a_case)" % (_coq_req(case["col"], tid), col, f, back))
     if kind == "a2o":
         col = _coq_result(obs["col"], lambda c: _coq_col(c, tid))
         if col is None:
@@ -1166,7 +1408,16 @@ def to_coq(case, obs):
         back = _coq_result(obs.get("back", {"raise": "ValueError"}), lambda l: _coq_cols(l, tid))
         if fs is None or back is None:
             return None
-        return ("schema", "((%s, %s, %s, %s) : schema_case)" % (L.boolean(case["ids"]), cols, fs, back))
+        reqs = L.lst(_coq_req(c, tid) for c in case["cols"])
+        return ("schema", "((%s, %s, %s, %s, %s) : schema_case)" % (L.boolean(case["ids"]), reqs, cols, fs, back))
+    if kind == "frameops":
+        if "raise" in obs or any("raise" in o for o in obs["outs"]) or len(obs["outs"]) != len(case["ops"]):
+            return None  # the oracle reports it; the model has no exception here
+        tables = L.lst(_coq_rows(_table_rows(t)) for t in case["tables"])
+        term = "((%s, %s, %s, %s, %s) : frameops_case)" % (
+            L.boolean(case["source"] != "rows-list"), tables, L.lst(L.text(c["name"]) for c in case["cols"]),
+            L.lst(_coq_op(op) for op in case["ops"]), L.lst(_coq_fobs(o) for o in obs["outs"]))
+        return ("frameops", term)
     return None
 
 
@@ -1333,6 +1584,65 @@ def _members():
     return list(OrsoTypes.__members__)
 
 
+# ---- one frame, several calls
+def _frame_alphabet(n):
+    ops = [["arrow", None], ["arrow", 0], ["arrow", 1], ["arrow", n], ["arrow", n + 1], ["rowcount"], ["materialize"]]
+    out = []
+    for op in ops:
+        if op not in out:
+            out.append(op)
+    return out
+
+
+def _frame_grid():
+    """All call sequences of length 1..2 (and 3 on the three-table stream) over {arrow(), arrow(0|1|N|N+1), rowcount, materialize()}
+    x every way of backing the frame x three row sets (no row; one table; three tables with a zero-row table in the middle)."""
+    k = 0
+    for n, comp in [(0, (0,)), (2, (2,)), (3, (2, 0, 1))]:
+        alpha = _frame_alphabet(n)
+        seqs = [[a] for a in alpha] + [[a, b] for a in alpha for b in alpha]
+        sources = [x for x in FRAME_SOURCES if x != "arrow-single" or len(comp) == 1]
+        plan = [(seq, src) for seq in seqs for src in sources]
+        if n == 3:
+            plan += [([a, b, c], sources[(i + j + l) % len(sources)])
+                     for i, a in enumerate(alpha) for j, b in enumerate(alpha) for l, c in enumerate(alpha)]
+        for seq, src in plan:
+            spec = SECOND[k % len(SECOND)]
+            rows = _small_rows(n, spec)
+            tables, at = [], 0
+            for c in comp:
+                tables.append([rows[at:at + c]])
+                at += c
+            yield {"kind": "frameops", "cols": [{"name": "id", "t": ["int64"]}, {"name": "v", "t": spec}], "tables": tables,
+                   "source": src, "ops": [list(op) for op in seq]}
+            k += 1
+
+
+def _rand_frameops(rng):
+    ncols = rng.randint(1, 4)
+    cols = [{"name": rng.choice(["a", "name", "été", "x y", "Col"]) + str(j), "t": rng.choice(RT_SPECS)} for j in range(ncols)]
+    n = rng.choice([0, 1, 2, 3, 4, 6, 8])
+    ps = [0.0 if c["t"][0] in INT_TYPES else rng.choice([0.0, 0.2, 0.2, 0.5, 1.0]) for c in cols]
+    rows = [[_rand_cell(rng, c["t"], q) for c, q in zip(cols, ps)] for _ in range(n)]
+    for r in rows:  # Python-side values: int64 range only
+        for j, c in enumerate(r):
+            if c is not None and c[0] == "i" and not -(2**63) <= c[1] < 2**63:
+                r[j] = ["i", 2**60 + 1]
+            if c is not None and c[0] == "l" and cols[j]["t"][1][0] in ("int64", "float64"):
+                # no null element in a numeric list: that is F-C11-5 (float arrays), which then cannot be exported at all
+                r[j] = ["l", [x for x in c[1] if x is not None]]
+    tables = []
+    for part in _split(rng, rows, rng.choice([1, 1, 2, 3, 4])):
+        tables.append(_split(rng, part, rng.choice([2, 3])) if rng.random() < 0.2 else [part])
+    sources = [x for x in FRAME_SOURCES if x != "arrow-single" or len(tables) == 1]
+    sizes = [None, None, None, 0, 1, 2, n, n + 1, max(0, n - 1), -1]
+    ops = []
+    for _ in range(rng.randint(1, 5)):
+        r = rng.random()
+        ops.append(["arrow", rng.choice(sizes)] if r < 0.7 else ["rowcount"] if r < 0.85 else ["materialize"])
+    return {"kind": "frameops", "cols": cols, "tables": tables, "source": rng.choice(sources), "ops": ops}
+
+
 def _o2a(t, elem=None, p=None, s=None, nullable=True, name="c", byname=None):
     col = {"name": name, "type": t, "elem": elem, "p": p, "s": s, "nullable": nullable}
     if byname:
@@ -1451,10 +1761,14 @@ def exhaustive(tier):
             yield c
         for c in _arrow_grid():
             yield c
+        for c in _frame_grid():
+            yield c
 
     return it(), ("all splittings of 0..%d rows into 1..4 tables (zero-row tables anywhere) x size limits none, 0, 1..N+1 (and the empty table list); "
                   "every OrsoTypes member, every element type (by member and by name), every DECIMAL(p,s) with 0<=s<=p<=38, p>=1; "
-                  "every constructible Arrow type x nullable x mappable_as_binary" % nmax)
+                  "every constructible Arrow type x nullable x mappable_as_binary; one frame used repeatedly: all sequences of 1..2 calls (3 on a three-table "
+                  "stream) from arrow()/arrow(0|1|N|N+1)/rowcount/materialize() x frames over Arrow tables (list, generator, single) and over "
+                  "Python rows (list, generator)" % nmax)
 
 
 def _rand_schema(rng):
@@ -1492,6 +1806,9 @@ def generate(rng, tier):
     count = 1000 if tier == "quick" else 20000
     for _ in range(count):
         yield _rand_case(rng)
+    # round 2: one frame used repeatedly (drawn after the cases above, which are unchanged for a given seed)
+    for _ in range(150 if tier == "quick" else 3000):
+        yield _rand_frameops(rng)
 
 
 def corpus():
@@ -1512,6 +1829,17 @@ def corpus():
     yield _o2a("ARRAY", elem="DATE")
     yield {"kind": "schema", "cols": [{"name": "d", "type": "DATE", "elem": None, "p": None, "s": None, "nullable": True}], "ids": True}
     yield {"kind": "a2o", "field": {"name": "d", "nullable": True, "t": ["date64"]}, "mab": False}
+    # round 2 (seeded C11-r2s1): a lazily backed frame exported twice must give the same rows the second time
+    for src in ("arrow-gen", "arrow-list", "rows-gen"):
+        yield {"kind": "frameops", "cols": id_col, "tables": [t1, [[]], t2], "source": src,
+               "ops": [["arrow", None], ["arrow", None], ["rowcount"], ["arrow", 2]]}
+    # round 2 (seeded C11-r2s2): decimals wider than the decimal context precision keep their precision
+    yield _o2a("DECIMAL", p=38, s=10)
+    yield _o2a("DECIMAL", byname="DECIMAL(38,10)")
+    yield {"kind": "a2o", "field": {"name": "d", "nullable": True, "t": ["decimal128", 38, 10]}, "mab": False}
+    yield {"kind": "schema", "cols": [{"name": "d", "type": "DECIMAL", "elem": None, "p": 29, "s": 1, "nullable": True}], "ids": False}
+    yield {"kind": "stream", "cols": [{"name": "k", "t": ["int64"]}, {"name": "d", "t": ["decimal128", 38, 10]}],
+           "tables": [[[[["i", 1], ["n", 12345678901234567890123456780123456789, -10]], [["i", 2], None]]]], "size": None, "how": "df"}
     # integers beyond 2^53 in a column without nulls, next to every other kind of null
     yield {"kind": "stream", "cols": [{"name": "i", "t": ["int64"]}, {"name": "f", "t": ["float64"]}, {"name": "u", "t": ["uint64"]}],
            "tables": [[[[["i", 2**60 + 1], None, ["i", 2**64 - 1]], [["i", -(2**63)], ["f", NAN_BITS], ["i", 2**53 + 1]]]]], "size": None, "how": "list"}
@@ -1523,6 +1851,8 @@ def search(rng):
             yield c
         for _ in range(40):
             yield _rand_case(rng)
+        for _ in range(10):
+            yield _rand_frameops(rng)
         ms = _members()
         t = rng.choice(ms)
         yield _o2a(t, elem=rng.choice(ms) if t == "ARRAY" else None,
@@ -1556,6 +1886,24 @@ def shrink(case):
                 yield dict(case, names=case["names"][:j] + case["names"][j + 1:], rows=[r[:j] + r[j + 1:] for r in rows])
         if case["size"] is not None:
             yield dict(case, size=None)
+    elif k == "frameops":
+        ops, ts = case["ops"], case["tables"]
+        for i in range(len(ops)):
+            yield dict(case, ops=ops[:i] + ops[i + 1:])
+        if len(ts) > 1:
+            for i in range(len(ts)):
+                yield dict(case, tables=ts[:i] + ts[i + 1:], source="arrow-list" if case["source"] == "arrow-single" else case["source"])
+        for i, t in enumerate(ts):
+            for a, ch in enumerate(t):
+                for b in range(len(ch)):
+                    yield dict(case, tables=ts[:i] + [t[:a] + [ch[:b] + ch[b + 1:]] + t[a + 1:]] + ts[i + 1:])
+        if len(case["cols"]) > 1:
+            for j in range(len(case["cols"])):
+                yield dict(case, cols=case["cols"][:j] + case["cols"][j + 1:],
+                           tables=[[[r[:j] + r[j + 1:] for r in ch] for ch in t] for t in ts])
+        for i, op in enumerate(ops):
+            if op[0] == "arrow" and op[1] is not None:
+                yield dict(case, ops=ops[:i] + [["arrow", None]] + ops[i + 1:])
     elif k == "batch":
         chs = case["chunks"]
         for a, ch in enumerate(chs):
@@ -1581,6 +1929,8 @@ def nontrivial_key(case, obs):
     if k == "schema" and not case["cols"]:
         return None
     if k in ("o2a", "schema") and "ctor" in obs:
+        return None
+    if k == "frameops" and not (_frame_rows(case) and any(op[0] == "arrow" for op in case["ops"])):
         return None
     return repr(sorted(case.items()))
 
@@ -1612,6 +1962,11 @@ def classify(case, obs):
             yield "o2a:arrow_field-raised"
     elif k == "a2o":
         yield "a2o:" + ("raised" if "raise" in obs["col"] else str(obs["col"]["type"]))
+    elif k == "frameops":
+        yield "frameops:source=" + case["source"]
+        yield "frameops:calls=%d" % len(case["ops"])
+        yield "frameops:exports=%d" % min(3, sum(1 for op in case["ops"] if op[0] == "arrow"))
+        yield "frameops:rows=%d" % min(len(_frame_rows(case)), 7)
     elif k == "schema":
         yield "schema:cols=%d" % len(case["cols"])
         yield "schema:" + ("identities" if case["ids"] else "names")
